@@ -341,6 +341,9 @@ RULES = {
     'schedule': 'configuration pairs (incl. to/from passthrough) x debug x requests derived from them x three schedule points (first Header() call, WriteHeader, entry of the wrapped handler) x three operations (Reconfigure to the other configuration, SetDebug flip, Config()) executed exactly at that point from inside the request; the response must be that of the state at request entry (compared with a fresh middleware in that state, Go against Go) and the next request that of the new state',
     'stress': '12 reader goroutines against 2 reconfiguring goroutines (alternating two configurations, checking Config() against the two normal forms) and one SetDebug toggler; every response must equal the response of one of the four (configuration, debug) states; thorough tier runs a -race build',
     'allocs': 'testing.AllocsPerRun(20, ServeHTTP) with a reusable writer for 56 families (allow-all / discrete / `*`+Authorization / credentialed `*` configurations x debug on/off x actual GET with long Origin, preflights with long Origin / long ACRM / long ACRH name / many ACRH elements / many ACRH lines / padded allowed list) at every size of the family; every family is a distinct non-trivial case',
+    'lexx': 'small-scope exhaustive: every sequence of up to 3 (thorough: 4) tokens from {a b1 1 0 255 256 01 . : * [ ] ::1 - _ / 80 8080 65536 xn-- A space} after each of https:// http:// https://*. http://[ through ParsePattern and Parse; distinct by case hash',
+    'acrhx': 'small-scope exhaustive: every subset of the allowed names {a b ab} (thorough: {a b ab abc}) x every sequence of up to 4 (thorough: 5) tokens from {a b ab abc c , space tab A} as one ACRH field line, and every split of the shorter sequences over two field lines, through headers.Check; distinct by case hash',
+    'treex': 'small-scope exhaustive: every ordered selection of up to 3 (thorough: 4) of 12 mutually related patterns (a host, its subdomains, the wildcards over them, other scheme, explicit and wildcard ports) inserted in that order, 48 fixed probes, Elems; distinct by case hash',
     'history': 'random operation sequences (SetDebug, Reconfigure nil/valid/invalid/Config()) over 1-3 middlewares with probes after every step; non-trivial = state-changing or observing operation; distinct by case hash',
 }
 
@@ -408,20 +411,23 @@ def C(suite, mode='full', kind='tie', only=None):
 
 # (suite, n_quick, n_thorough, extra args) and the comparisons made on its lines
 PROPS = {
-    'C01': dict(suites=[('tree', 1500, 60000), ('lex', 1500, 40000), ('serve', 3000, 60000)],
-                cmps=[C('tree', 'treebits', 'spec'), C('lex', 'full', 'tie', only=('parse',)), C('serve', 'bitsPA', 'spec')]),
+    'C01': dict(suites=[('tree', 1500, 60000), ('lex', 1500, 40000), ('serve', 3000, 60000), ('treex', 3, 4), ('lexx', 3, 4)],
+                cmps=[C('tree', 'treebits', 'spec'), C('lex', 'full', 'tie', only=('parse',)), C('serve', 'bitsPA', 'spec'),
+                      C('treex', 'treebits', 'spec'), C('lexx', 'full', 'tie', only=('parse',))]),
     # "every accepted configuration" includes the ones put in force by Reconfigure on a middleware whose handlers were wrapped earlier
-    'C02': dict(suites=[('intents', 6000, 200000), ('serve', 3000, 80000), ('tree', 500, 20000), ('acrh', 1000, 40000), ('history', 100, 3000)],
-                cmps=[C('intents', 'firsttoken', 'spec'), C('serve', 'full', 'tie'), C('tree', 'treebits', 'spec'), C('acrh', 'full', 'spec'), C('history', 'dec', 'spec')]),
+    'C02': dict(suites=[('intents', 6000, 200000), ('serve', 3000, 80000), ('tree', 500, 20000), ('acrh', 1000, 40000), ('history', 100, 3000), ('acrhx', 4, 5)],
+                cmps=[C('intents', 'firsttoken', 'spec'), C('serve', 'full', 'tie'), C('tree', 'treebits', 'spec'), C('acrh', 'full', 'spec'), C('history', 'dec', 'spec'),
+                      C('acrhx', 'full', 'spec')]),
     # C03 speaks of *allowed* origins: the ties of the two origin-decision components (tree, request-side lexer) belong to it
     # ... and "the configuration" is the one in force after any history of Reconfigure calls, also for handlers wrapped earlier
-    'C03': dict(suites=[('serve', 6000, 150000), ('tree', 800, 30000), ('lex', 800, 30000), ('history', 120, 3000)],
-                cmps=[C('serve', 'c03', 'tie'), C('tree', 'treebits', 'spec'), C('lex', 'full', 'tie', only=('parse',)), C('history', 'c03', 'tie')]),
+    'C03': dict(suites=[('serve', 6000, 150000), ('tree', 800, 30000), ('lex', 800, 30000), ('history', 120, 3000), ('treex', 3, 4), ('lexx', 3, 4)],
+                cmps=[C('serve', 'c03', 'tie'), C('tree', 'treebits', 'spec'), C('lex', 'full', 'tie', only=('parse',)), C('history', 'c03', 'tie'),
+                      C('treex', 'treebits', 'spec'), C('lexx', 'full', 'tie', only=('parse',))]),
     'C04': dict(suites=[('validate', 3000, 100000), ('names', 300, 20000), ('lex', 1000, 20000)],
                 cmps=[C('validate', 'accept', 'spec'), C('names', 'full', 'tie'), C('lex', 'full', 'tie', only=('pattern',))]),
     'C05': dict(suites=[('validate', 6000, 150000)], cmps=[C('validate', 'full', 'spec')]),
-    'C06': dict(suites=[('roundtrip', 1500, 60000), ('history', 150, 4000), ('validate', 2000, 50000)],
-                cmps=[C('roundtrip', 'full', 'spec'), C('history', 'dec', 'tie'), C('validate', 'full', 'tie')]),
+    'C06': dict(suites=[('roundtrip', 1500, 60000), ('history', 150, 4000), ('validate', 2000, 50000), ('treex', 3, 4)],
+                cmps=[C('roundtrip', 'full', 'spec'), C('history', 'dec', 'tie'), C('validate', 'full', 'tie'), C('treex', 'full', 'tie')]),
     # the adversarial history (in-place writes to Config() results and to the Config passed in) checks "never mutated after publication"
     'C07': dict(suites=[('schedule', 250, 6000), ('stress', 6, 20), ('history', 100, 2000, ('-adversarial',))],
                 cmps=[C('schedule', 'full', 'spec'), C('stress', 'full', 'spec'), C('history', 'dec', 'spec')]),
@@ -436,16 +442,17 @@ PROPS = {
     'C11': dict(suites=[('serve', 6000, 150000), ('history', 120, 3000)], cmps=[C('serve', 'c11', 'spec'), C('history', 'c11', 'spec')]),
     'C12': dict(suites=[('history', 150, 4000, ('-adversarial',)), ('serve', 2000, 50000, ('-adversarial',))],
                 cmps=[C('history', 'dec', 'spec'), C('serve', 'dec', 'spec')]),
-    'C13': dict(suites=[('lex', 4000, 150000)], cmps=[C('lex', 'full', 'tie', only=('pattern',)), C('lex', 'full', 'tie', only=('parse',))]),
-    'C14': dict(suites=[('acrh', 3000, 150000), ('serve', 2000, 50000)], cmps=[C('acrh', 'full', 'spec'), C('serve', 'bitsH', 'spec')]),
+    'C13': dict(suites=[('lex', 4000, 150000), ('lexx', 3, 4)], cmps=[C('lex', 'full', 'tie', only=('pattern',)), C('lex', 'full', 'tie', only=('parse',)),
+                                                                         C('lexx', 'full', 'tie', only=('pattern',)), C('lexx', 'full', 'tie', only=('parse',))]),
+    'C14': dict(suites=[('acrh', 3000, 150000), ('serve', 2000, 50000), ('acrhx', 4, 5)], cmps=[C('acrh', 'full', 'spec'), C('serve', 'bitsH', 'spec'), C('acrhx', 'full', 'spec')]),
     # order independence of Origins is a property of the tree: its tie belongs to the check
-    'C15': dict(suites=[('twins', 4000, 150000), ('validate', 2000, 50000), ('tree', 800, 30000)],
-                cmps=[C('twins', 'full', 'spec'), C('validate', 'full', 'tie'), C('tree', 'treebits', 'spec')]),
+    'C15': dict(suites=[('twins', 4000, 150000), ('validate', 2000, 50000), ('tree', 800, 30000), ('treex', 3, 4)],
+                cmps=[C('twins', 'full', 'spec'), C('validate', 'full', 'tie'), C('tree', 'treebits', 'spec'), C('treex', 'treebits', 'spec')]),
     # "debug off" is a state of the documented state machine (C09): histories belong to the check
     'C16': dict(suites=[('serve', 8000, 200000), ('history', 150, 4000)], cmps=[C('serve', 'c16', 'tie'), C('history', 'c16h', 'tie')]),
     'C17': dict(suites=[('lex', 1000, 30000), ('tree', 500, 20000), ('acrh', 1000, 30000), ('validate', 1500, 50000),
-                        ('serve', 2000, 60000), ('errors', 50, 1000), ('history', 50, 1000)],
-                cmps=[C(s, 'panic', 'spec') for s in ('lex', 'tree', 'acrh', 'validate', 'serve', 'errors', 'history')]),
+                        ('serve', 2000, 60000), ('errors', 50, 1000), ('history', 50, 1000), ('lexx', 3, 4), ('acrhx', 4, 5), ('treex', 3, 4)],
+                cmps=[C(s, 'panic', 'spec') for s in ('lex', 'tree', 'acrh', 'validate', 'serve', 'errors', 'history', 'lexx', 'acrhx', 'treex')]),
     'C18': dict(suites=[('allocs', 1, 2), ('serve', 1000, 20000)], cmps=[C('allocs', 'full', 'spec'), C('serve', 'dec', 'tie')], level='other',
                 explanation='PARTIAL (category other): a Lean cost-model theorem (at most 4 allocating header primitives per request, independent of all sizes), '
                             'regenerated loop/install facts proved by decide (no allocating construct and only allow-listed callees inside loops on the request path), and measured conformance: '
